@@ -292,6 +292,15 @@ static int SEQ[MAXN], SEQ_n;
 struct cb_ctx {
     int level;
 };
+/* "ambient error" runs: the thread's last-error value is whatever earlier, unrelated and already handled failures left there -
+ * here AWS_ERROR_INVALID_INDEX, left both before the parse and by every callback that returns success (a callback that probed
+ * a list of its own).  The outcome of a parse must not depend on it (added after a seeded change in a shared helper that
+ * consulted aws_last_error() without looking at the return code first) */
+static int g_ambient;
+static int cb_ok(void) {
+    if (g_ambient) aws_raise_error(AWS_ERROR_INVALID_INDEX);
+    return AWS_OP_SUCCESS;
+}
 static int on_node(struct aws_xml_node *node, void *ud) {
     struct cb_ctx *c = (struct cb_ctx *)ud;
     int k = L_n;
@@ -310,13 +319,13 @@ static int on_node(struct aws_xml_node *node, void *ud) {
     o->action = k < SEQ_n ? SEQ[k] : A_SKIP;
     switch (o->action) {
         case A_SKIP:
-            return AWS_OP_SUCCESS;
+            return cb_ok();
         case A_BODY:
             o->body_rc = aws_xml_node_as_body(node, &o->body);
-            return o->body_rc ? AWS_OP_ERR : AWS_OP_SUCCESS;
+            return o->body_rc ? AWS_OP_ERR : cb_ok();
         case A_DESCEND: {
             struct cb_ctx child = {c->level + 1};
-            return aws_xml_node_traverse(node, on_node, &child) ? AWS_OP_ERR : AWS_OP_SUCCESS;
+            return aws_xml_node_traverse(node, on_node, &child) ? AWS_OP_ERR : cb_ok();
         }
         default:
             ++aborts_executed;
@@ -475,6 +484,7 @@ static void run_case(const struct tcase *tc, int want_sample) {
     opt.on_root_encountered = on_node;
     opt.user_data = &root;
     aws_reset_error();
+    if (g_ambient) aws_raise_error(AWS_ERROR_INVALID_INDEX);
     int rc = aws_xml_parse(aws_default_allocator(), &opt);
     int err = rc ? aws_last_error() : 0;
 
@@ -902,6 +912,26 @@ static uint64_t limits_case(uint64_t want, struct tcase *tc) {
                 tc->act[N] = last == 0 ? A_DESCEND : last == 1 ? A_BODY : A_SKIP;
                 return cnt;
             }
+    /* (g) combs: a chain of D elements, every one descended into, and behind each nested element a further sibling - so that
+     * D descents are in progress at once when the innermost element is reached and every one of them still has a child to
+     * dispatch on the way back (added after a seeded change whose traversal kept a pointer into its growing stack of
+     * descents: right up to 4 simultaneous descents, dangling from the 5th, 9th, 17th on) */
+    static const int gm[] = {4, 5, 6, 8, 9, 10, 12, 13};
+    for (size_t p = 0; p < sizeof(gm) / sizeof(gm[0]); ++p)
+        for (int pat = 0; pat < 3; ++pat)
+            for (int leaf = 0; leaf < 3; ++leaf) {
+                if (cnt++ != want) continue;
+                int D = gm[p], parent[MAXN];
+                for (int i = 0; i < D; ++i) parent[i] = i - 1;
+                for (int j = D - 2; j >= 0; --j) parent[D + (D - 2 - j)] = j; /* document order: the innermost level's sibling first */
+                tc_init(tc, "comb", 2 * D - 1, parent);
+                for (int i = 0; i < 2 * D - 1; ++i) {
+                    tc_name(tc, i, i < D ? chain_names[pat][i % 3] : (pat == 2 ? "b" : "s"));
+                    tc->act[i] = i < D ? A_DESCEND : leaf == 0 ? A_DESCEND : leaf == 1 ? A_BODY : A_SKIP;
+                    tc->text[i] = (i == D - 1 || i >= D) ? 1 : 0;
+                }
+                return cnt;
+            }
     return cnt;
 }
 static uint64_t LIM_total;
@@ -919,6 +949,17 @@ static void limits_eval(uint64_t idx, void *ctx) {
     else if (!strcmp(tc.kind, "attrs")) V_COUNT("limit_attr_count_cases", 1);
     else V_COUNT("limit_unclosed_cases", 1);
     run_case(&tc, idx == 4 * 3 * 19 + 19 * 4 + 1 /* depth-20 chain, body at level 20 */);
+}
+
+static void full3_ambient_eval(uint64_t idx, void *ctx) {
+    g_ambient = 1;
+    full3_eval(idx, ctx);
+    g_ambient = 0;
+}
+static void limits_ambient_eval(uint64_t idx, void *ctx) {
+    g_ambient = 1;
+    limits_eval(idx, ctx);
+    g_ambient = 0;
 }
 
 int main(int argc, char **argv) {
@@ -944,5 +985,7 @@ int main(int argc, char **argv) {
     bee_register("preshape", preshape_total, preshape_eval, 20);
     bee_register("pat", pat_total, pat_eval, 20);
     bee_register("limits", limits_total, limits_eval, 20);
+    bee_register("full3-ambient-error", full3_total, full3_ambient_eval, 20);
+    bee_register("limits-ambient-error", limits_total, limits_ambient_eval, 20);
     return bee_main(argc, argv);
 }
